@@ -50,6 +50,26 @@ def check(pid: str, tier: str, seed: int):
             m = MG.gen_model(impl, rng, L, lg, lcf, n_assets=(2, 6))
             PIO.add_model_attackers(impl, rng, m, lg)
             pairs.append((f'gen{i}', L, lg, lcf, m))
+        # every operator over a model in which assets reach one field through several association objects
+        Lo = PG.ops_language()
+        try:
+            lgo, lcfo = MG.make_lang(impl, Lo)
+            for oi, links in enumerate([[('Pp', 0, 1), ('Pp', 0, 2), ('Qq', 0, 1), ('Qq', 1, 2), ('Pp', 1, 0)],
+                                        [('Pp', 0, 1), ('Pp', 0, 2), ('Pp', 0, 0), ('Qq', 2, 0), ('Qq', 2, 1), ('Qq', 1, 1)]]):
+                mo = Model(f'ops{oi}', lcfo)
+                objs = []
+                for k, t in enumerate(['Aa', 'Bb', 'Cc']):
+                    objs.append(getattr(lcfo.ns, t)(name=f'{t.lower()}{k}'))
+                    mo.add_asset(objs[-1])
+                for cls, l, r in links:
+                    o = getattr(lcfo.ns, cls)()
+                    lf, rf = ('pa', 'pb') if cls == 'Pp' else ('qa', 'qb')
+                    setattr(o, lf, [objs[l]]); setattr(o, rf, [objs[r]])
+                    mo.add_association(o)
+                PIO.add_model_attackers(impl, rng, mo, lgo)
+                pairs.append((f'ops{oi}', Lo, lgo, lcfo, mo))
+        except Exception:
+            pass
         # inheritance chains of depth 3 with a step absent / plain / '->' / '+>' at every level (in-process checks only)
         chain_pairs = []
         for ci, L in enumerate(PL.exhaustive_langs(3)):
@@ -90,17 +110,39 @@ def check(pid: str, tier: str, seed: int):
             graphs = []
             for k in range(2):
                 try:
-                    g = AttackGraph(lg, m)
-                    g.attach_attackers()
-                    calculate_viability_and_necessity(g)
+                    with C.time_limit(20):
+                        g = AttackGraph(lg, m)
+                        g.attach_attackers()
+                        calculate_viability_and_necessity(g)
                     graphs.append(g)
                 except Exception as e:
                     pv.append(f'generation raised {type(e).__name__}')
                     break
+            def edge_lists(g):
+                return [(n.id, [c.id for c in n.children], [q.id for q in n.parents]) for n in g.nodes]
             if len(graphs) == 2:
                 a, b = (json.dumps(g._to_dict(), default=str) for g in graphs)
                 if a != b:
                     pv.append('two generations in one process give different serialized graphs')
+                elif edge_lists(graphs[0]) != edge_lists(graphs[1]):
+                    pv.append('two generations in one process give graphs with different edge lists')
+                # both graphs generated first, attackers attached and analysis run afterwards: same graphs again
+                try:
+                    with C.time_limit(30):
+                        h1, h2 = AttackGraph(lg, m), AttackGraph(lg, m)
+                        for h in (h1, h2):
+                            h.attach_attackers()
+                            calculate_viability_and_necessity(h)
+                    for h in (h1, h2):
+                        if json.dumps(h._to_dict(), default=str) != a:
+                            pv.append('a graph generated before another one from the same model was attached to / analysed differs from a graph generated on its own')
+                            break
+                    hid = {id(x) for x in h1.nodes} | {id(x) for x in h1.attackers}
+                    if any(id(x) in hid for at in h2.attackers for x in at.reached_attack_steps + at.entry_points) or \
+                            any(id(at) in hid for x in h2.nodes for at in x.compromised_by):
+                        pv.append('two graphs built from the same model share a node or an attacker')
+                except Exception as e:
+                    pv.append(f'generation raised {type(e).__name__}')
                 ids0 = {id(x) for x in graphs[0].nodes} | {id(x) for x in graphs[0].attackers}
                 if any(id(x) in ids0 for x in graphs[1].nodes) or any(id(x) in ids0 for x in graphs[1].attackers):
                     pv.append('two graphs built from the same model share a node or an attacker')
@@ -110,14 +152,26 @@ def check(pid: str, tier: str, seed: int):
                         break
             if lg._lang_spec != spec_before:
                 pv.append('generation or analysis changed the language specification')
-            if json.dumps(m._to_dict(), sort_keys=True, default=str) != model_before:
+            try:
+                model_after = json.dumps(m._to_dict(), sort_keys=True, default=str)
+            except Exception as e:
+                model_after = None
+            if model_after != model_before:
                 pv.append("generation or analysis changed the model's serialized form")
+            if pv:
+                # already a violation with a concrete pair: the further routes would only repeat it (and, with inputs disturbed
+                # by generation, can take very long)
+                metas.append({'label': label, 'prop_viol': pv, 'nodes': len(graphs[0].nodes) if graphs else 0, 'serialized': None})
+                continue
             # files for the fresh interpreters
             if label.startswith('chain'):
                 metas.append({'label': label, 'prop_viol': pv, 'nodes': len(graphs[0].nodes) if graphs else 0, 'serialized': None})
-                view = MG.view(m)
-                obs, g0 = PG.observe(impl, lg, m)
-                cases.append(f'({LG.c_lang(L)}, {MG.c_imodel(view)}, {C.cjv(obs)})')
+                try:
+                    view = MG.view(m)
+                    obs, g0 = PG.observe(impl, lg, m)
+                    cases.append(f'({LG.c_lang(L)}, {MG.c_imodel(view)}, {C.cjv(obs)})')
+                except Exception as e:
+                    pv.append(f'generation raised {type(e).__name__}')
                 continue
             if L is not None:
                 mar = os.path.join(scratch, f'{label}.mar')
@@ -137,9 +191,12 @@ def check(pid: str, tier: str, seed: int):
                           'serialized': json.dumps(PG_canon(graphs[0]), default=str) if graphs else None})
             # model comparison for the in-process graph (generation only)
             if L is not None:
-                view = MG.view(m)
-                obs, g0 = PG.observe(impl, lg, m)
-                cases.append(f'({LG.c_lang(L)}, {MG.c_imodel(view)}, {C.cjv(obs)})')
+                try:
+                    view = MG.view(m)
+                    obs, g0 = PG.observe(impl, lg, m)
+                    cases.append(f'({LG.c_lang(L)}, {MG.c_imodel(view)}, {C.cjv(obs)})')
+                except Exception as e:
+                    pv.append(f'a further generation from the same model raised {type(e).__name__}')
         jobs = []
         for route, batch in (('direct', batch_mar), ('wrapper', batch_mar), ('wrapper-mal', batch_mal), ('direct-mal', batch_mal)):
             bf = os.path.join(scratch, f'batch_{route}.json')
